@@ -837,7 +837,12 @@ class DATETIME(NUMERIC):
         return self.prepare_datetime(x)
 
     def from_column_value(self, x):
-        return long_to_datetime(x)
+        try:
+            return long_to_datetime(x)
+        except OverflowError:
+            # The column default (used for documents without a value) is not
+            # a representable date
+            return None
 
     def to_bytes(self, x, shift=0):
         x = self.prepare_datetime(x)
